@@ -330,6 +330,13 @@ def rule_b_into(ctx):
             _, r0 = ctx.resolve(body, recv)
             from rules_protocol import _o_prefix
             ok = p1r is not None and ctx.roles.is_cursor_place(p1r) and _o_prefix(ctx, p1r) == _o_prefix(ctx, r0)
+            if not ok and p1 is not None:
+                # .. or the old half of a by-reference iterator that was handed in (`unsafe fn into_iter_from(self, iter: RawIter<T>)`, whose
+                # contract is `iter == self.iter()`): that half is a clone of the cursor (K-field decides how such iterators are built)
+                from rules_colour import path_role
+                own = ctx.facts.closure_parent(body)
+                if path_role(ctx, body, p1) == OLD and own.raw.get("unsafe"):
+                    ok = True
             R.inst(fn=body.path, site=c.where(), verdict="ok" if ok else "VIOLATION")
             if not ok:
                 R.viol("%s:into_iter_from:old" % body.path, c.where(), "old table is consumed with an iterator that is not the cursor cached next to it")
